@@ -1339,6 +1339,8 @@ class Interp:
                 r = a is b
             elif isinstance(a, EnumVal) or isinstance(b, EnumVal):
                 r = a == b
+            elif isinstance(a, (ClassRef, ExtRef)) and isinstance(b, (ClassRef, ExtRef)):
+                r = (a == b) if type(a) is type(b) else False      # class objects are singletons
             else:
                 r = a is b
             return r if isinstance(op, ast.Is) else (not r)
@@ -1477,6 +1479,8 @@ class Interp:
                     return v
                 if attr == "__class__":
                     return ClassRef(o.cls)
+                if attr == "__dict__":
+                    return o.fields          # the instance dictionary is the record itself (live)
                 if attr == "args" and self._is_exception(o.cls):
                     return o.fields.get("args", ())
             if o.cls is not None and self._is_namedtuple(o.cls) and attr in ("_replace", "_asdict", "_fields"):
@@ -1532,6 +1536,10 @@ class Interp:
                 return o.args
             return self.fresh(f"exc.{attr}")
         if isinstance(o, Func):
+            if attr == "__wrapped__":
+                return o             # functools wrappers (lru_cache, wraps): the undecorated function is this one
+            if attr in ("cache_clear", "cache_info"):
+                return BoundBuiltin(None, "noop") if False else self.fresh(f"func.{attr}")
             if attr == "__name__":
                 return getattr(o.node, "name", "<lambda>")
             return self.fresh(f"func.{attr}")
@@ -1807,6 +1815,22 @@ class Interp:
         if name in ("any", "all"):
             vals = [self.truth(x) for x in self.iterate(args[0])]
             return any(vals) if name == "any" else all(vals)
+        if name == "iter" and len(args) == 1:
+            if isinstance(args[0], _Iter):
+                return args[0]
+            return _Iter(list(self.iterate(args[0])))
+        if name == "next" and args:
+            src_ = args[0]
+            # eagerly evaluated generators / generator expressions are lists here: taking the next element consumes it
+            if isinstance(src_, (list, _Iter)) and not isinstance(src_, _Deque):
+                if src_:
+                    return src_.pop(0)
+                if len(args) > 1:
+                    return args[1]
+                raise PyRaise(ExcVal("StopIteration", ()))
+            if isinstance(src_, Unknown):
+                return self.fresh(f"next({src_.sym})")
+            raise PyRaise(ExcVal("TypeError", (f"{type(src_).__name__} object is not an iterator",)))
         if name in ("sum", "min", "max", "abs", "round", "int", "float", "str", "bool", "repr", "divmod", "pow", "hash", "id", "ord", "chr", "type", "iter", "next", "map", "filter"):
             if name in ("min", "max") and "key" in kwargs:
                 items = self.iterate(args[0]) if len(args) == 1 else list(args)
@@ -2274,6 +2298,10 @@ class Interp:
         if isinstance(recv, _DictView):
             raise Imprecise(f"method {name} on dict view")
         raise Imprecise(f"method {name} on {type(recv).__name__}")
+
+
+class _Iter(list):
+    """an iterator over already-computed items (iter(x), a called generator): consumed from the front"""
 
 
 class _Deque(list):
